@@ -39,6 +39,9 @@ class Cross(enum.Enum):
 ENUMS = {"Color": Color, "Num": Num, "Plain": Plain, "Cross": Cross}
 
 
+Pair = collections.namedtuple("Pair", "x y")      # a tuple subclass that is built from positional items
+
+
 class PlainObj:
     def __repr__(self):
         return "<PlainObj>"
@@ -133,6 +136,8 @@ def decode(s):
             return [decode(e) for e in s["v"]]
         if t == "tuple":
             return tuple(decode(e) for e in s["v"])
+        if t == "pair":
+            return Pair(*[decode(e) for e in s["v"]])
         if t == "set":
             return set(decode(e) for e in s["v"])
         if t == "frozenset":
@@ -219,6 +224,8 @@ def encode(v, depth=0):
         return {"t": "memoryview", "v": bytes(v).hex()}
     if type(v) in (list, tuple, collections.deque):
         return {"t": type(v).__name__, "v": [encode(e, depth + 1) for e in v]}
+    if type(v) is Pair:
+        return {"t": "pair", "v": [encode(e, depth + 1) for e in v]}
     if type(v) in (set, frozenset):
         try:
             items = sorted(v, key=repr)
